@@ -275,6 +275,49 @@ def run(ctx, chk, tier="quick"):
             continue
         g = gs[0]
         gx = flow.expand(g.expr, keep={ref, step_name})
+        # the test delegated to a predicate of the package with several returns: every `return True` under a test is an
+        # acceptance of its own and must itself be the on-grid test; `return False` / raise only refuse more
+        accepted_otherwise = None
+        for c_ in [x for x in ast.walk(gx) if isinstance(x, ast.Call)]:
+            try:
+                tg_ = ctx.cg.resolve_callee(f, c_.func)
+            except Exception:
+                tg_ = []
+            hf = ctx.cg.func(tg_[0]) if len(tg_) == 1 else None
+            if hf is None or len(c_.args) != len(hf.params) or c_.keywords:
+                continue
+            from ..normalize import _subst
+            sub = dict(zip(hf.params, c_.args))
+            rets_ = [r for r in ast.walk(hf.node) if isinstance(r, ast.Return) and r.value is not None]
+            mains = []
+            for r in rets_:
+                par = getattr(r, "parent", None)
+                if isinstance(r.value, ast.Constant) and r.value.value is True and isinstance(par, ast.If) and r in par.body:
+                    t_ = _subst(par.test, sub)
+                    sh_, sd_ = _grid_test_shape(ctx.repo.module(hf.module.name), t_, ref, step_name, quotient, False)
+                    if sh_ != "two-sided" and accepted_otherwise is None:
+                        accepted_otherwise = (hf, r, par.test)
+                elif isinstance(r.value, ast.Constant) and r.value.value is False:
+                    continue
+                else:
+                    mains.append(r)
+            if len(mains) == 1:
+                v_ = mains[0].value
+                while isinstance(v_, ast.Call) and isinstance(v_.func, ast.Name) and v_.func.id == "bool" and len(v_.args) == 1:
+                    v_ = v_.args[0]
+                hflow = Flow.of(hf)
+                body_ = _subst(hflow.expand(v_, keep=set(hf.params)), sub)
+                gx = body_
+                mod = ctx.repo.module(hf.module.name)
+            break
+        if accepted_otherwise is not None:
+            hf, r_, t_ = accepted_otherwise
+            chk.ob("C09.O2", False, where_of(hf, r_), "%s accepts the reference when `%s`, without the on-grid test" % (hf.qualname, ast.unparse(t_)[:80]),
+                   "a reference is accepted only if it is (within rounding) a multiple of the grid step: every accepting path applies the two-sided test",
+                   key="%s|on-grid-shortcut" % fq, local=True,
+                   why="a shortcut that accepts a class of references (whole millimetres on a sub-millimetre grid) accepts off-grid levels whenever the step does not divide them (-37 mm on a 0.3 mm grid): the origin silently moves to the neighbouring level")
+            desc["gridtest"] = "shortcut"
+            continue
         shape, sdesc = _grid_test_shape(mod, gx, ref, step_name, quotient, g.negated)
         if shape == "unknown":
             chk.indeterminate("C09.O2", where_of(f, g.stmt), "unrecognised on-grid test: %s" % sdesc[:120])
